@@ -6,11 +6,11 @@
 import NdnVerif.C03.LemmasParse
 namespace Ndn.C03
 
-theorem Res.bind_assoc' {α β γ : Type} (x : Res α) (f : α → Res β) (g : β → Res γ) :
+theorem Res.bind_assoc_int {α β γ : Type} (x : Res α) (f : α → Res β) (g : β → Res γ) :
     ((x >>= f) >>= g) = (x >>= fun a => f a >>= g) := by
   cases x <;> rfl
 
-theorem drop_eq_nil_pos {b : Bytes} {p : Nat} (hp : p ≤ b.length) (h : b.drop p = []) : p = b.length := by
+theorem drop_eq_nil_pos_int {b : Bytes} {p : Nat} (hp : p ≤ b.length) (h : b.drop p = []) : p = b.length := by
   have := congrArg List.length h
   simp at this; omega
 
@@ -24,7 +24,7 @@ theorem linksLoop_at (R : ReaderSpecs) (E : EncSpecs) : ∀ (ns : List Name) (fu
   induction ns with
   | nil =>
     intro fuel r buf p acc h hb _ _ hf
-    have hp : p = buf.length := drop_eq_nil_pos h.2.2 (by simpa [encLinks] using hb)
+    have hp : p = buf.length := drop_eq_nil_pos_int h.2.2 (by simpa [encLinks] using hb)
     cases fuel with
     | zero => omega
     | succ f => exact ⟨r, by rw [tlvLoop_end R linksBody f acc r buf p h hp]; simp⟩
@@ -109,7 +109,7 @@ theorem ordLoop_hit {σ : Type} (n : Nat) (idx : Nat → Option Nat)
 /-! ### Interest: moving the generic loop from element to element -/
 
 /-- `tlvLoop_step` with the header reader independent of the fuel -/
-theorem tlvLoop_step' (R : ReaderSpecs) {σ : Type} (body : σ → Nat → Nat → Nat → Rd → Res (σ × Rd)) (st : σ)
+theorem tlvLoop_step_int (R : ReaderSpecs) {σ : Type} (body : σ → Nat → Nat → Nat → Rd → Res (σ × Rd)) (st : σ)
     (r : Rd) (buf : Bytes) (p ty l : Nat) (rest : Bytes) (h : At r buf p)
     (hb : buf.drop p = encTL ty ++ (encTL l ++ rest)) (hty : ty < 2 ^ 64) (hl : l < 2 ^ 62) :
     ∃ r2, At r2 buf (p + tlLen ty + tlLen l) ∧ r2.Live ∧ buf.drop (p + tlLen ty + tlLen l) = rest ∧
@@ -160,7 +160,7 @@ theorem step_reach (R : ReaderSpecs) {st : InterestSt} {q : Nat} {r : Rd} {buf :
       ∀ (st' : InterestSt) (r3 : Rd) (p3 : Nat),
         interestHandle k (absFold interestAbsent p r2 (k - q) q st) l p r2 = .ok (st', r3) →
         p3 ≤ buf.length → p + tlLen ty + tlLen l ≤ p3 → Reach buf p (st, q) r p3 (st', k + 1) r3 := by
-  obtain ⟨r2, a2, l2, d2, _, e2⟩ := tlvLoop_step' R interestBody (st, q) r buf p ty l rest h hb hty hl
+  obtain ⟨r2, a2, l2, d2, _, e2⟩ := tlvLoop_step_int R interestBody (st, q) r buf p ty l rest h hb hty hl
   refine ⟨r2, a2, l2, d2, ?_⟩
   intro st' r3 p3 hh hle hge fuel hf
   have := tlLen_pos ty
@@ -168,7 +168,7 @@ theorem step_reach (R : ReaderSpecs) {st : InterestSt} {q : Nat} {r : Rd} {buf :
   | zero => omega
   | succ f =>
     refine ⟨f, by omega, ?_⟩
-    rw [e2 f, interestBody_hit ty l p k q st r2 hk hq hk15, Res.bind_assoc', hh]
+    rw [e2 f, interestBody_hit ty l p k q st r2 hk hq hk15, Res.bind_assoc_int, hh]
     rfl
 
 /-! ### absent-actions of the Interest model -/
@@ -233,16 +233,16 @@ theorem eta_si (st : InterestSt) (h : st.v.si = none) : { st with v := { st.v wi
 
 /-! ### small encoder facts -/
 
-theorem encTL_small (x : Nat) (h : x ≤ 0xfc) : encTL x = [x] := by simp [encTL, h]
-theorem tlLen_small (x : Nat) (h : x ≤ 0xfc) : tlLen x = 1 := by simp [tlLen, h]
+theorem encTL_small_int (x : Nat) (h : x ≤ 0xfc) : encTL x = [x] := by simp [encTL, h]
+theorem tlLen_small_int (x : Nat) (h : x ≤ 0xfc) : tlLen x = 1 := by simp [tlLen, h]
 
-theorem nameLen_append (a b : Name) : nameLen (a ++ b) = nameLen a + nameLen b := by
+theorem nameLen_append_int (a b : Name) : nameLen (a ++ b) = nameLen a + nameLen b := by
   simp [nameLen, List.map_append, List.sum_append]
 
-theorem encNameInner_append (a b : Name) : encNameInner (a ++ b) = encNameInner a ++ encNameInner b := by
+theorem encNameInner_append_int (a b : Name) : encNameInner (a ++ b) = encNameInner a ++ encNameInner b := by
   simp [encNameInner, List.flatMap_append]
 
-theorem sigEndAux_snoc (c : Component) : ∀ (base : Name) (p cur : Nat),
+theorem sigEndAux_snoc_int (c : Component) : ∀ (base : Name) (p cur : Nat),
     sigEndAux p (base ++ [c]) cur = if c.typ = 2 then p + nameLen base else sigEndAux p base cur := by
   intro base
   induction base with
@@ -254,18 +254,18 @@ theorem sigEndAux_snoc (c : Component) : ∀ (base : Name) (p cur : Nat),
     · simp [nameLen]; omega
     · rfl
 
-theorem flatten_length (c : List Bytes) : c.flatten.length = contentLen c := by
+theorem flatten_length_int (c : List Bytes) : c.flatten.length = contentLen c := by
   simp [contentLen, List.length_flatten]
 
-theorem natLen_le (x : Nat) : natLen x ≤ 8 := by
+theorem natLen_le_int (x : Nat) : natLen x ≤ 8 := by
   unfold natLen; repeat' split
   all_goals omega
 
-theorem lt_pow_natLen (x : Nat) (hx : x < 2 ^ 64) : x < 256 ^ natLen x := by
+theorem lt_pow_natLen_int (x : Nat) (hx : x < 2 ^ 64) : x < 256 ^ natLen x := by
   unfold natLen; repeat' split
   all_goals omega
 
-theorem pow_natLen_le (x : Nat) : 256 ^ natLen x ≤ u64 := by
+theorem pow_natLen_le_int (x : Nat) : 256 ^ natLen x ≤ u64 := by
   unfold natLen u64; repeat' split
   all_goals omega
 
@@ -295,11 +295,11 @@ theorem el_name (E : EncSpecs) (fn : Name) (st : InterestSt) {q : Nat} {r : Rd} 
     (sigEndAux (p + tlLen 7 + tlLen (nameLen fn)) fn (p + tlLen 7 + tlLen (nameLen fn) + nameLen fn)), a3, d3, ?_, ?_⟩
   · intro base v hfn
     subst hfn
-    rw [sigEndAux_snoc]
+    rw [sigEndAux_snoc_int]
     simp only [↓reduceIte]
     have hle : p + tlLen 7 + tlLen (nameLen (base ++ [⟨2, v⟩])) + nameLen base ≤ buf.length := by
-      have := a3.2.2; rw [nameLen_append] at this; rw [nameLen_append]; omega
-    rw [R.range_eq r3 buf _ _ _ a3 (by omega) hle, d2, encNameInner_append, List.append_assoc]
+      have := a3.2.2; rw [nameLen_append_int] at this; rw [nameLen_append_int]; omega
+    rw [R.range_eq r3 buf _ _ _ a3 (by omega) hle, d2, encNameInner_append_int, List.append_assoc]
     rw [show p + tlLen 7 + tlLen (nameLen (base ++ [⟨2, v⟩])) + nameLen base
         - (p + tlLen 7 + tlLen (nameLen (base ++ [⟨2, v⟩]))) = (encNameInner base).length by rw [E.nameLen_eq]; omega]
     simp
@@ -318,9 +318,9 @@ theorem el_cbp (b : Bool) (st : InterestSt) {q : Nat} {r : Rd} {buf : Bytes} {p 
     rw [eta_cbp st h0]; simp only [boolField]; exact Reach.refl _ _ _ _
   | true =>
     have hb1 : buf.drop p = encTL 33 ++ (encTL 0 ++ rest) := by
-      rw [hb]; simp [boolField, encTL_small]
+      rw [hb]; simp [boolField, encTL_small_int]
     obtain ⟨r2, a2, l2, d2, hstep⟩ := step_reach R (st := st) h hb1 (by omega) (by omega) (by decide : interestIdx 33 = some 3) hq (by omega)
-    have hL : (boolField 33 true).length = tlLen 33 + tlLen 0 := by simp [boolField, encTL_length, tlLen_small]
+    have hL : (boolField 33 true).length = tlLen 33 + tlLen 0 := by simp [boolField, encTL_length, tlLen_small_int]
     rw [hL, ← Nat.add_assoc]
     refine ⟨r2, 4, by omega, a2, d2, ?_⟩
     apply hstep _ r2 _ _ a2.2.2 (by omega)
@@ -338,9 +338,9 @@ theorem el_mbf (b : Bool) (st : InterestSt) {q : Nat} {r : Rd} {buf : Bytes} {p 
     rw [eta_mbf st h0]; simp only [boolField]; exact Reach.refl _ _ _ _
   | true =>
     have hb1 : buf.drop p = encTL 18 ++ (encTL 0 ++ rest) := by
-      rw [hb]; simp [boolField, encTL_small]
+      rw [hb]; simp [boolField, encTL_small_int]
     obtain ⟨r2, a2, l2, d2, hstep⟩ := step_reach R (st := st) h hb1 (by omega) (by omega) (by decide : interestIdx 18 = some 4) hq (by omega)
-    have hL : (boolField 18 true).length = tlLen 18 + tlLen 0 := by simp [boolField, encTL_length, tlLen_small]
+    have hL : (boolField 18 true).length = tlLen 18 + tlLen 0 := by simp [boolField, encTL_length, tlLen_small_int]
     rw [hL, ← Nat.add_assoc]
     refine ⟨r2, 5, by omega, a2, d2, ?_⟩
     apply hstep _ r2 _ _ a2.2.2 (by omega)
@@ -392,11 +392,11 @@ theorem el_nonce (o : Option Nat) (st : InterestSt) {q : Nat} {r : Rd} {buf : By
   | some x =>
     have hx := hv x rfl
     have hb1 : buf.drop p = encTL 10 ++ (encTL 4 ++ (be 4 x ++ rest)) := by
-      rw [hb]; simp [optB, encNonce, encTL_small]
+      rw [hb]; simp [optB, encNonce, encTL_small_int]
     obtain ⟨r2, a2, l2, d2, hstep⟩ := step_reach R (st := st) h hb1 (by omega) (by omega) (by decide : interestIdx 10 = some 6) hq (by omega)
     obtain ⟨r3, e3, a3, d3⟩ := readNat_at R r2 buf _ 4 x 32 rest a2 d2 (by omega) (by simp [u64])
     have hL : (optB (some x) encNonce).length = tlLen 10 + tlLen 4 + 4 := by
-      simp [optB, encNonce, tlLen_small]
+      simp [optB, encNonce, tlLen_small_int]
     rw [hL, show p + (tlLen 10 + tlLen 4 + 4) = p + tlLen 10 + tlLen 4 + 4 by omega]
     refine ⟨r3, 7, by omega, a3, d3, ?_⟩
     apply hstep _ r3 _ _ a3.2.2 (by omega)
@@ -416,13 +416,13 @@ theorem el_lt (o : Option Nat) (st : InterestSt) {q : Nat} {r : Rd} {buf : Bytes
     rw [eta_lt st h0]; simp only [optB]; exact Reach.refl _ _ _ _
   | some x =>
     have hx := hv x rfl
-    have hn := natLen_le x
+    have hn := natLen_le_int x
     have hb1 : buf.drop p = encTL 12 ++ (encTL (natLen x) ++ (be (natLen x) x ++ rest)) := by
-      rw [hb]; simp [optB, encNatField, encTL_small (natLen x) (by omega), List.append_assoc]
+      rw [hb]; simp [optB, encNatField, encTL_small_int (natLen x) (by omega), List.append_assoc]
     obtain ⟨r2, a2, l2, d2, hstep⟩ := step_reach R (st := st) h hb1 (by omega) (by omega) (by decide : interestIdx 12 = some 7) hq (by omega)
-    obtain ⟨r3, e3, a3, d3⟩ := readNat_at R r2 buf _ (natLen x) x 64 rest a2 d2 (lt_pow_natLen x hx) (pow_natLen_le x)
+    obtain ⟨r3, e3, a3, d3⟩ := readNat_at R r2 buf _ (natLen x) x 64 rest a2 d2 (lt_pow_natLen_int x hx) (pow_natLen_le_int x)
     have hL : (optB (some x) (encNatField 12)).length = tlLen 12 + tlLen (natLen x) + natLen x := by
-      simp [optB, encNatField, encTL_length, tlLen_small (natLen x) (by omega)]; omega
+      simp [optB, encNatField, encTL_length, tlLen_small_int (natLen x) (by omega)]; omega
     rw [hL, show p + (tlLen 12 + tlLen (natLen x) + natLen x) = p + tlLen 12 + tlLen (natLen x) + natLen x by omega]
     refine ⟨r3, 8, by omega, a3, d3, ?_⟩
     apply hstep _ r3 _ _ a3.2.2 (by omega)
@@ -443,13 +443,13 @@ theorem el_hl (o : Option Nat) (st : InterestSt) {q : Nat} {r : Rd} {buf : Bytes
   | some x =>
     have hx := hv x rfl
     have hb1 : buf.drop p = encTL 34 ++ (encTL 1 ++ ([x % 256] ++ rest)) := by
-      rw [hb]; simp [optB, encHopLimit, encTL_small]
+      rw [hb]; simp [optB, encHopLimit, encTL_small_int]
     obtain ⟨r2, a2, l2, d2, hstep⟩ := step_reach R (st := st) h hb1 (by omega) (by omega) (by decide : interestIdx 34 = some 8) hq (by omega)
     obtain ⟨hle, htk, d3⟩ := drop_append_len a2.2.2 d2
     simp only [List.length_cons, List.length_nil] at hle htk d3
     obtain ⟨r3, e3, a3⟩ := R.skip_ok r2 buf _ 1 a2 l2 hle
     have hL : (optB (some x) encHopLimit).length = tlLen 34 + tlLen 1 + 1 := by
-      simp [optB, encHopLimit, tlLen_small]
+      simp [optB, encHopLimit, tlLen_small_int]
     rw [hL, show p + (tlLen 34 + tlLen 1 + 1) = p + tlLen 34 + tlLen 1 + 1 by omega]
     refine ⟨r3, 9, by omega, a3, d3, ?_⟩
     apply hstep _ r3 _ _ a3.2.2 (by omega)
@@ -461,5 +461,251 @@ theorem el_hl (o : Option Nat) (st : InterestSt) {q : Nat} {r : Rd} {buf : Bytes
       simpa using htk
     simp [interestHandle, e3, hr, Nat.mod_eq_of_lt hx]
 
+/-- ApplicationParameters (slot 11) arriving from the head part: both offset markers are set here -/
+theorem el_ap (c : List Bytes) (st : InterestSt) {q : Nat} {r : Rd} {buf : Bytes} {p : Nat} {rest X : Bytes}
+    (hX : X = encTL 36 ++ encTL (contentLen c) ++ c.flatten)
+    (h : At r buf p) (hb : buf.drop p = X ++ rest) (hlen : contentLen c < 2 ^ 62) (hq : q ≤ 9) :
+    ∃ r', At r' buf (p + X.length) ∧ buf.drop (p + X.length) = rest ∧
+      Reach buf p (st, q) r (p + X.length)
+        ({ st with v := { st.v with ap := some c.flatten }, sigCoverStart := p, digestCoverStart := p }, 12) r' := by
+  subst hX
+  have hb1 : buf.drop p = encTL 36 ++ (encTL (contentLen c) ++ (c.flatten ++ rest)) := by
+    rw [hb]; simp [List.append_assoc]
+  obtain ⟨r2, a2, l2, d2, hstep⟩ := step_reach R (st := st) (q := q) h hb1 (by omega) hlen (by decide : interestIdx 36 = some 11) (by omega) (by omega)
+  obtain ⟨hle, htk, d3⟩ := drop_append_len a2.2.2 d2
+  rw [flatten_length_int] at hle htk d3
+  obtain ⟨r3, e3, a3⟩ := R.readWire_ok r2 buf _ (contentLen c) a2 hle
+  rw [htk] at e3
+  have hL : (encTL 36 ++ encTL (contentLen c) ++ c.flatten).length = tlLen 36 + tlLen (contentLen c) + contentLen c := by
+    rw [List.length_append, List.length_append, flatten_length_int, encTL_length, encTL_length]
+  rw [hL, show p + (tlLen 36 + tlLen (contentLen c) + contentLen c) = p + tlLen 36 + tlLen (contentLen c) + contentLen c by omega]
+  refine ⟨r3, a3, d3, ?_⟩
+  apply hstep _ r3 _ _ a3.2.2 (by omega)
+  rw [absFold_markers p r2 q 11 st hq (by omega) (by omega)]
+  simp [interestHandle, e3]
+
+/-- SignatureInfo (slot 12) -/
+theorem el_si (S : SigInfoParseSpec) (E : EncSpecs) (o : Option SigInfo) (st : InterestSt) {q : Nat} {r : Rd}
+    {buf : Bytes} {p : Nat} {rest X : Bytes}
+    (hX : X = optB o (fun s => encTL 44 ++ encTL (sigInfoLen s) ++ encSigInfo s))
+    (h : At r buf p) (hb : buf.drop p = X ++ rest)
+    (hv : ∀ s, o = some s → SigInfoValid s) (hlen : ∀ s, o = some s → sigInfoLen s < 2 ^ 62)
+    (hq : q ≤ 12) (h0 : st.v.si = none) :
+    ∃ r' q' st', q ≤ q' ∧ q' ≤ 13 ∧ At r' buf (p + X.length) ∧ buf.drop (p + X.length) = rest ∧
+      st'.v = { st.v with si := o } ∧ st'.sigCovered = st.sigCovered ∧
+      (q = 12 → st' = { st with v := { st.v with si := o } }) ∧
+      Reach buf p (st, q) r (p + X.length) (st', q') r' := by
+  subst hX
+  cases o with
+  | none =>
+    refine ⟨r, q, { st with v := { st.v with si := none } }, by omega, by omega, by simpa [optB] using h,
+      by simpa [optB] using hb, rfl, rfl, fun _ => rfl, ?_⟩
+    rw [eta_si st h0]; simp only [optB]; exact Reach.refl _ _ _ _
+  | some s =>
+    have hl := hlen s rfl
+    have hb1 : buf.drop p = encTL 44 ++ (encTL (sigInfoLen s) ++ (encSigInfo s ++ rest)) := by
+      rw [hb]; simp [optB, List.append_assoc]
+    obtain ⟨r2, a2, l2, d2, hstep⟩ := step_reach R (st := st) h hb1 (by omega) hl (by decide : interestIdx 44 = some 12) hq (by omega)
+    obtain ⟨hle, htk, d3⟩ := drop_append_len a2.2.2 d2
+    rw [E.sigInfoLen_eq] at hle htk d3
+    obtain ⟨sub, r3, e3, asub, a3⟩ := R.delegate_ok r2 buf _ (sigInfoLen s) a2 hle
+    rw [htk] at asub
+    have ep := S sub s asub (hv s rfl) hl
+    have hL : (optB (some s) (fun s => encTL 44 ++ encTL (sigInfoLen s) ++ encSigInfo s)).length
+        = tlLen 44 + tlLen (sigInfoLen s) + sigInfoLen s := by
+      simp [optB, encTL_length, E.sigInfoLen_eq]; omega
+    rw [hL, show p + (tlLen 44 + tlLen (sigInfoLen s) + sigInfoLen s) = p + tlLen 44 + tlLen (sigInfoLen s) + sigInfoLen s by omega]
+    refine ⟨r3, 13, { absFold interestAbsent p r2 (12 - q) q st with
+        v := { (absFold interestAbsent p r2 (12 - q) q st).v with si := some s } },
+      by omega, by omega, a3, d3, ?_, ?_, ?_, ?_⟩
+    · show { (absFold interestAbsent p r2 (12 - q) q st).v with si := some s } = _
+      rw [absFold_v]
+    · show (absFold interestAbsent p r2 (12 - q) q st).sigCovered = _
+      rw [absFold_sigCovered]
+    · intro hq12; subst hq12; simp [absFold]
+    · apply hstep _ r3 _ _ a3.2.2 (by omega)
+      simp [interestHandle, e3, ep]
+
+/-- SignatureValue (slot 13): the signed range ends at the start of this element -/
+theorem el_sv (sv : Bytes) (st : InterestSt) {q : Nat} {r : Rd} {buf : Bytes} {p : Nat} {rest X : Bytes}
+    (hX : X = encTL 46 ++ encTL sv.length ++ sv)
+    (h : At r buf p) (hb : buf.drop p = X ++ rest) (hlen : sv.length < 2 ^ 62) (hq1 : 12 ≤ q) (hq2 : q ≤ 13)
+    (hs : st.sigCoverStart ≤ p) :
+    ∃ r', At r' buf (p + X.length) ∧ buf.drop (p + X.length) = rest ∧
+      Reach buf p (st, q) r (p + X.length)
+        ({ st with v := { st.v with sv := some sv },
+                   sigCovered := st.sigCovered ++ (buf.drop st.sigCoverStart).take (p - st.sigCoverStart) }, 14) r' := by
+  subst hX
+  have hb1 : buf.drop p = encTL 46 ++ (encTL sv.length ++ (sv ++ rest)) := by
+    rw [hb]; simp [List.append_assoc]
+  obtain ⟨r2, a2, l2, d2, hstep⟩ := step_reach R (st := st) h hb1 (by omega) hlen (by decide : interestIdx 46 = some 13) hq2 (by omega)
+  obtain ⟨hle, htk, d3⟩ := drop_append_len a2.2.2 d2
+  obtain ⟨r3, e3, a3⟩ := R.readWire_ok r2 buf _ sv.length a2 hle
+  rw [htk] at e3
+  have hL : (encTL 46 ++ encTL sv.length ++ sv).length = tlLen 46 + tlLen sv.length + sv.length := by
+    simp [encTL_length]; omega
+  rw [hL, show p + (tlLen 46 + tlLen sv.length + sv.length) = p + tlLen 46 + tlLen sv.length + sv.length by omega]
+  refine ⟨r3, a3, d3, ?_⟩
+  apply hstep _ r3 _ _ a3.2.2 (by omega)
+  have hA : absFold interestAbsent p r2 (13 - q) q st = st := by
+    have : q = 12 ∨ q = 13 := by omega
+    rcases this with rfl | rfl <;> simp [absFold, interestAbsent]
+  rw [hA]
+  simp [interestHandle, e3, R.range_eq r3 buf _ _ _ a3 hs h.2.2]
+
 end
+
+/-- the absent-actions at the end when ApplicationParameters were seen: the range marker (slot 14) -/
+theorem finish_tail (r : Rd) (q : Nat) (st : InterestSt) (h1 : 12 ≤ q) (h2 : q ≤ 14) :
+    ordFinish interestAbsent r (15 - q) q st = { st with digestCovered := r.range st.digestCoverStart r.pos } := by
+  have : q = 12 ∨ q = 13 ∨ q = 14 := by omega
+  rcases this with rfl | rfl | rfl <;> simp [ordFinish, interestAbsent]
+
+/-! ### the whole Interest value -/
+
+theorem optB_some_int {α : Type} (a : α) (f : α → Bytes) : optB (some a) f = f a := rfl
+theorem optB_none_int {α : Type} (f : α → Bytes) : optB (none : Option α) f = [] := rfl
+
+theorem take_append_two_int (a b c : Bytes) : (a ++ (b ++ c)).take (a.length + b.length) = a ++ b := by
+  rw [← List.append_assoc]; exact List.take_left' (by simp)
+
+/-- what the decoder proof needs to know about the encoded Interest (all consequences of
+    `InterestIn.Valid` and of the normal form of `makeInterest`) -/
+structure InterestReady (i : InterestIn) (fn : Name) (sv : Bytes) : Prop where
+  nameValid : NameValid fn
+  nameLen : nameLen fn < 2 ^ 62
+  fhValid : ∀ ns, i.fh = some ns → ∀ n ∈ ns, NameValid n
+  fhLen : ∀ ns, i.fh = some ns → linksLen ns < 2 ^ 62
+  nonce : ∀ x, i.nonce = some x → x < 2 ^ 32
+  lt : ∀ x, i.lt = some x → x < 2 ^ 64
+  hl : ∀ x, i.hl = some x → x < 256
+  apLen : ∀ c, i.ap = some c → contentLen c < 2 ^ 62
+  siValid : ∀ s, i.si = some s → SigInfoValid s
+  siLen : ∀ s, i.si = some s → sigInfoLen s < 2 ^ 62
+  svLen : sv.length < 2 ^ 62
+  est : i.est > 0 → i.ap.isSome
+  digest : i.ap.isSome → ∃ v, fn = stripDigest i.name ++ [⟨2, v⟩]
+
+theorem finish_at (R : ReaderSpecs) {buf : Bytes} {r0 : Rd} {st : InterestSt} {q : Nat} {rF : Rd} {pF : Nat}
+    (h0 : At r0 buf 0) (hR : Reach buf 0 (({} : InterestSt), 0) r0 pF (st, q) rF) (aF : At rF buf pF)
+    (hp : pF = buf.length) :
+    parseInterest {} r0 = .ok (ordFinish interestAbsent rF (15 - q) q st) := by
+  obtain ⟨f, hf, e⟩ := hR (loopFuel r0) (by simp [loopFuel, R.pos_eq r0 _ 0 h0, R.length_eq r0 _ 0 h0])
+  cases f with
+  | zero => omega
+  | succ f =>
+    rw [tlvLoop_end R interestBody f (st, q) rF buf pF aF hp] at e
+    show (tlvLoop interestBody (loopFuel r0) (({} : InterestSt), 0) r0 >>= _) = _
+    rw [e]; rfl
+
+/-- the part after the offset markers: ApplicationParameters, SignatureInfo, SignatureValue, and the
+    absent-actions at the end -/
+theorem tail_at (R : ReaderSpecs) (E : EncSpecs) (S : SigInfoParseSpec) (i : InterestIn) (fn : Name) (sv : Bytes)
+    (hr : InterestReady i fn sv) {buf : Bytes} {r0 r7 : Rd} {p7 q7 : Nat} {X : Bytes} {v7 : InterestP}
+    (h0 : At r0 buf 0) (a7 : At r7 buf p7) (d7 : buf.drop p7 = interestParamsPortion i sv) (hq7 : q7 ≤ 9)
+    (RH : Reach buf 0 (({} : InterestSt), 0) r0 p7 (({ v := v7, sigCovered := X } : InterestSt), q7) r7)
+    (hap : v7.ap = none) (hsi : v7.si = none) (hsv : v7.sv = none) :
+    ∃ fs, parseInterest {} r0 = .ok fs
+      ∧ fs.v = { v7 with ap := i.ap.map List.flatten, si := i.si, sv := if i.est > 0 then some sv else none }
+      ∧ (i.ap.isSome → fs.digestCovered = interestParamsPortion i sv)
+      ∧ (i.est > 0 → fs.sigCovered = X ++ (optB i.ap (fun c => encTL 36 ++ encTL (contentLen c) ++ c.flatten)
+            ++ optB i.si (fun s => encTL 44 ++ encTL (sigInfoLen s) ++ encSigInfo s))) := by
+  cases hiap : i.ap with
+  | none =>
+    have hest : ¬ i.est > 0 := fun h => by have := hr.est h; simp [hiap] at this
+    have d7' : buf.drop p7 = optB i.si (fun s => encTL 44 ++ encTL (sigInfoLen s) ++ encSigInfo s) ++ [] := by
+      rw [d7]; simp [interestParamsPortion, hiap, hest, optB_none_int]
+    obtain ⟨r8, q8, st8, _, hq8, a8, d8, hv8, hc8, _, R8⟩ := el_si R S E i.si
+      ({ v := v7, sigCovered := X } : InterestSt) (q := q7) rfl a7 d7' hr.siValid hr.siLen (by omega) hsi
+    have hp8 := drop_eq_nil_pos_int a8.2.2 d8
+    refine ⟨_, finish_at R h0 (RH.trans R8) a8 hp8, ?_, by simp, fun h => absurd h hest⟩
+    rw [ordFinish_eq, absFold_v, hv8]
+    obtain ⟨⟩ := v7; simp_all
+  | some c =>
+    have hcl := hr.apLen c hiap
+    have d7' : buf.drop p7 = (encTL 36 ++ encTL (contentLen c) ++ c.flatten)
+        ++ (optB i.si (fun s => encTL 44 ++ encTL (sigInfoLen s) ++ encSigInfo s)
+        ++ (if i.est > 0 then encTL 46 ++ encTL sv.length ++ sv else [])) := by
+      rw [d7]; simp only [interestParamsPortion, hiap, optB_some_int, List.append_assoc]
+    obtain ⟨r8, a8, d8, R8⟩ := el_ap R c ({ v := v7, sigCovered := X } : InterestSt) rfl a7 d7' hcl hq7
+    obtain ⟨r9, q9, st9, hq9a, hq9b, a9, d9, _, _, hst9, R9⟩ := el_si R S E i.si
+      ({ v := { v7 with ap := some c.flatten }, sigCovered := X, sigCoverStart := p7, digestCoverStart := p7 } : InterestSt)
+      (q := 12) rfl a8 d8 hr.siValid hr.siLen (by omega) hsi
+    have hst9 := hst9 rfl
+    subst hst9
+    have hdrop : (buf.drop p7).take (buf.length - p7) = interestParamsPortion i sv := by
+      rw [← d7]; exact List.take_of_length_le (by simp)
+    by_cases hest : i.est > 0
+    · rw [if_pos hest] at d9
+      have d9' : buf.drop (p7 + (encTL 36 ++ encTL (contentLen c) ++ c.flatten).length
+          + (optB i.si (fun s => encTL 44 ++ encTL (sigInfoLen s) ++ encSigInfo s)).length)
+          = (encTL 46 ++ encTL sv.length ++ sv) ++ [] := by rw [d9]; simp
+      obtain ⟨r10, a10, d10, R10⟩ := el_sv R sv
+        ({ v := { v7 with ap := some c.flatten, si := i.si }, sigCovered := X, sigCoverStart := p7,
+           digestCoverStart := p7 } : InterestSt) (q := q9) rfl a9 d9' hr.svLen hq9a hq9b (by show p7 ≤ _; omega)
+      have hp10 := drop_eq_nil_pos_int a10.2.2 d10
+      refine ⟨_, finish_at R h0 (RH.trans (R8.trans (R9.trans R10))) a10 hp10, ?_, ?_, ?_⟩
+      · rw [finish_tail _ _ _ (by omega) (by omega)]; simp [hest]
+      · intro _
+        rw [finish_tail _ _ _ (by omega) (by omega)]
+        show r10.range p7 r10.pos = _
+        rw [R.pos_eq r10 _ _ a10, R.range_eq r10 buf _ p7 _ a10 (by omega) (by omega), hp10, hdrop]
+      · intro _
+        rw [finish_tail _ _ _ (by omega) (by omega)]
+        show X ++ (buf.drop p7).take (p7 + (encTL 36 ++ encTL (contentLen c) ++ c.flatten).length
+          + (optB i.si (fun s => encTL 44 ++ encTL (sigInfoLen s) ++ encSigInfo s)).length - p7) = _
+        rw [d7', show p7 + (encTL 36 ++ encTL (contentLen c) ++ c.flatten).length
+          + (optB i.si (fun s => encTL 44 ++ encTL (sigInfoLen s) ++ encSigInfo s)).length - p7
+          = (encTL 36 ++ encTL (contentLen c) ++ c.flatten).length
+          + (optB i.si (fun s => encTL 44 ++ encTL (sigInfoLen s) ++ encSigInfo s)).length by omega,
+          take_append_two_int, optB_some_int]
+    · rw [if_neg hest] at d9
+      have hp9 := drop_eq_nil_pos_int a9.2.2 d9
+      refine ⟨_, finish_at R h0 (RH.trans (R8.trans R9)) a9 hp9, ?_, ?_, fun h => absurd h hest⟩
+      · rw [finish_tail _ _ _ hq9a (by omega)]
+        obtain ⟨⟩ := v7; simp_all
+      · intro _
+        rw [finish_tail _ _ _ hq9a (by omega)]
+        show r9.range p7 r9.pos = _
+        rw [R.pos_eq r9 _ _ a9, R.range_eq r9 buf _ p7 _ a9 (by omega) (by omega), hp9, hdrop]
+
+theorem parseInterest_at (R : ReaderSpecs) (E : EncSpecs) (S : SigInfoParseSpec) (i : InterestIn) (fn : Name)
+    (sv : Bytes) (r : Rd) (hr : InterestReady i fn sv) (h : At r (interestValue i fn sv) 0) :
+    ∃ fs, parseInterest {} r = .ok fs ∧ fs.v = interestExpect i fn sv
+      ∧ (i.ap.isSome → fs.digestCovered = interestParamsPortion i sv)
+      ∧ (i.est > 0 → fs.sigCovered = interestCovered i) := by
+  obtain ⟨buf, hbuf⟩ : ∃ b, b = interestValue i fn sv := ⟨_, rfl⟩
+  rw [← hbuf] at h
+  have hb0 : buf.drop 0 = encNameField 7 fn ++ (boolField 33 i.cbp ++ (boolField 18 i.mbf
+      ++ (optB i.fh (fun ns => encTL 30 ++ encTL (linksLen ns) ++ encLinks ns)
+      ++ (optB i.nonce encNonce ++ (optB i.lt (encNatField 12) ++ (optB i.hl encHopLimit
+      ++ interestParamsPortion i sv)))))) := by
+    rw [hbuf]; simp only [List.drop_zero, interestValue, interestHead, List.append_assoc]
+  obtain ⟨r1, X, a1, d1, hX, R1⟩ := el_name R E fn {} (q := 0) h hb0 hr.nameValid hr.nameLen (by omega)
+  obtain ⟨r2, q2, hq2, a2, d2, R2⟩ := el_cbp R i.cbp
+    ({ v := { name := some fn }, sigCovered := X } : InterestSt) (q := 3) a1 d1 (by omega) rfl
+  obtain ⟨r3, q3, hq3, a3, d3, R3⟩ := el_mbf R i.mbf
+    ({ v := { name := some fn, cbp := i.cbp }, sigCovered := X } : InterestSt) a2 d2 hq2 rfl
+  obtain ⟨r4, q4, hq4, a4, d4, R4⟩ := el_fh R E i.fh
+    ({ v := { name := some fn, cbp := i.cbp, mbf := i.mbf }, sigCovered := X } : InterestSt) rfl a3 d3
+    hr.fhValid hr.fhLen hq3 rfl
+  obtain ⟨r5, q5, hq5, a5, d5, R5⟩ := el_nonce R i.nonce
+    ({ v := { name := some fn, cbp := i.cbp, mbf := i.mbf, fh := i.fh }, sigCovered := X } : InterestSt) a4 d4
+    hr.nonce hq4 rfl
+  obtain ⟨r6, q6, hq6, a6, d6, R6⟩ := el_lt R i.lt
+    ({ v := { name := some fn, cbp := i.cbp, mbf := i.mbf, fh := i.fh, nonce := i.nonce }, sigCovered := X } : InterestSt)
+    a5 d5 hr.lt hq5 rfl
+  obtain ⟨r7, q7, hq7, a7, d7, R7⟩ := el_hl R i.hl
+    ({ v := { name := some fn, cbp := i.cbp, mbf := i.mbf, fh := i.fh, nonce := i.nonce, lt := i.lt },
+       sigCovered := X } : InterestSt) a6 d6 hr.hl hq6 rfl
+  have RH := R1.trans (R2.trans (R3.trans (R4.trans (R5.trans (R6.trans R7)))))
+  clear R1 R2 R3 R4 R5 R6 R7
+  obtain ⟨fs, e, hv, hd, hc⟩ := tail_at R E S i fn sv hr h a7 d7 hq7 RH rfl rfl rfl
+  refine ⟨fs, e, ?_, hd, ?_⟩
+  · rw [hv]; rfl
+  · intro hest
+    obtain ⟨v, hfn⟩ := hr.digest (hr.est hest)
+    rw [hc hest, hX _ v hfn]
+    simp [interestCovered, List.append_assoc]
+
 end Ndn.C03
